@@ -149,7 +149,8 @@ func verifH_SrvConversation() {
 		}
 		car.script = append(car.script, &tunnelpb.ClientToServer{StreamId: id, Frame: fr})
 	}
-	if verifParam("between") != 0 && verifBool("handlersRunBetweenFrames") {
+	between := verifParam("between") != 0 && verifBool("handlersRunBetweenFrames")
+	if between {
 		// the peer is slow: after each frame everything comes to rest before the next one arrives
 		car.onRecv = func() {
 			if car.pos > 0 && car.pos < len(car.script) {
@@ -183,7 +184,10 @@ func verifH_SrvConversation() {
 	loopBlocks := verifBlockedCount() - car.drainBlks
 	verifDrain()
 
-	if !anyRevZero {
+	// (and when a frame finishes a stream whose handler sits in SendMsg, the loop waits for the write lock
+	// that the cancellation makes the handler release: a bounded wait, S-SRV-BLOCKED; getting here at all
+	// shows that the loop was not wedged - a wedge ends the path as DEADLOCK)
+	if !anyRevZero && !between {
 		// (a revision-zero stream has no flow control: its one-slot queue makes the loop wait for the handler)
 		verifAssert(loopBlocks == 0, "C03+C09.conv-receive-loop-never-blocks")
 	}
